@@ -282,6 +282,60 @@ def run(ctx):
                     ok3 = ok3 and okp
             ctx.ob("R3.register-before-publish", "guard-cleared-after-bootstrap", ok3, cb.loc(),
                    f"every normal path from guard.set(true) to return passes guard.set(false) {gfalse}")
+    # every counter object an allocation can be charged to is visible to the process total: a static that holds counters
+    # (directly or in a collection) and is not thread-local is read by allocation_totals - no write-only "sink"
+    at0 = prog.one("allocator::allocation_totals")
+    if at0 is not None:
+        refs = set()
+        for bd in [at0] + prog.closures_of(at0):
+            for blk in bd.blocks:
+                for st in blk.stmts:
+                    if st["k"] == "assign":
+                        rv = st["rv"]
+                        ops = [rv.get("op")] if rv["k"] in ("use", "cast") else rv.get("ops", [])
+                        for o in ops:
+                            if o and o.get("k") == "const" and o.get("name"):
+                                refs.add(o["name"])
+                        if rv["k"] == "tlref":
+                            refs.add(rv["def"])
+                t = blk.term
+                if t["k"] == "call":
+                    for a in t["args"]:
+                        if a.get("k") == "const" and a.get("name"):
+                            refs.add(a["name"])
+        ref_tys = {}
+        def _walk(x):
+            if isinstance(x, dict):
+                if x.get("k") == "const" and isinstance(x.get("ty"), str) and x["ty"].startswith("&"):
+                    ref_tys.setdefault(x["ty"][1:].replace("'static ", "", 1).strip(), set()).add(x.get("text"))
+                for v in x.values():
+                    _walk(v)
+            elif isinstance(x, list):
+                for v in x:
+                    _walk(v)
+        for bd in [at0] + prog.closures_of(at0):
+            _walk(bd.d["blocks"])
+        by_ty = {}
+        for p_, s_ in prog.statics.items():
+            if "alloc_tracker::allocator::" in p_ and "__RUST_STD_INTERNAL" not in p_:
+                by_ty.setdefault(s_["ty"]["s"], []).append(p_)
+        sinks = []
+        n_st = 0
+        for p_, s_ in prog.statics.items():
+            if "alloc_tracker::allocator::" not in p_ or "__RUST_STD_INTERNAL" in p_ or "PerThreadCounters" not in s_["ty"]["s"]:
+                continue
+            if "thread::LocalKey" in s_["ty"]["s"] or "thread::local::LocalKey" in s_["ty"]["s"]:
+                continue
+            n_st += 1
+            named = any(r == p_ or r.startswith(p_ + "::") for r in refs)
+            # statics are referenced through anonymous allocations in MIR constants: match by type (as many distinct references of
+            # that type as there are statics of it)
+            typed = len(ref_tys.get(s_["ty"]["s"], ())) >= len(by_ty.get(s_["ty"]["s"], [p_]))
+            if not (named or typed):
+                sinks.append(p_.split("::")[-1])
+        ctx.ob("R3.totals-sum-all", "every-counter-static-is-summed", n_st >= 1 and not sinks, at0.loc(),
+               f"{n_st} process-wide static(s) holding counters; not read by allocation_totals: {sinks or 'none'}" +
+               ("" if not sinks else " - allocations charged there are forwarded to the wrapped allocator but appear in no span"))
     at = prog.one("allocator::allocation_totals")
     if at is None:
         ctx.missing("R3.totals-sum-all", "allocator::allocation_totals")
